@@ -12,7 +12,7 @@ import sys
 import modelx as mx
 from modelx.core.errors import FormulaError, NoneReturnedError, DeepReferenceError
 from mxmc import bfs, ops as O
-from mxmc.faultfam import (FaultWorld, KINDS, shape_elems, arm_points, shape_spec, RefTicker)
+from mxmc.faultfam import (FaultWorld, KINDS, shape_elems, arm_points, shape_spec, RefTicker, shape_edits)
 from mxmc.evalfam import RefTrees, held_elems
 from mxmc.refsem import tree_elems
 from mxmc.session import (TICK, render, digest, raw_observe, executor_quiescent, QUIESCENT, session_canon,
@@ -83,6 +83,15 @@ def run_history(shape, hist):
         if op["op"] == "disarm":
             TICK.armed.pop(tuple(op["elem"]), None)
             obs.append("disarm")
+            continue
+        if op["op"] == "set_allow_none":
+            r = raw_observe(lambda: O._apply_impl(w.m, op))
+            obs.append(("ok", None) if r[0] == "ok" else ("exc", type(r[1]).__name__))
+            if r[0] == "ok":
+                O.apply_ref(w.rm, op)
+            else:
+                bad("edit-raises", {"op": op, "error": type(r[1]).__name__}, "accepted")
+                break
             continue
         before = w.held_map() if last else None
         TICK.take_log()
@@ -176,7 +185,7 @@ def alphabet(shape, tier):
         for k in kinds:
             ops.append({"op": "arm", "elem": list(pt), "kind": k})
         ops.append({"op": "disarm", "elem": list(pt)})
-    return ops
+    return ops + shape_edits(shape)
 
 
 def shapes(tier):
@@ -195,6 +204,7 @@ def shapes(tier):
     out.append({"kind": "catcher"})
     out.append({"kind": "lambda", "kinds": ["ValueError", "Base"]})
     out.append({"kind": "item", "kinds": ["ValueError", "Custom", "Base", "None"]})
+    out.append({"kind": "allow", "kinds": ["None"]})
     return out
 
 
